@@ -20,7 +20,7 @@ EXPECTED = ['USER', 'PASS', 'SIZE', 'TYPE', 'PASV', 'RETR']
 EXPECTED_LIST = ['USER', 'PASS', 'TYPE', 'PASV', 'MLSD', 'LIST']
 
 
-def run_session(url, script, listing=False, login=None, client_setup=None):
+def run_session(url, script, listing=False, login=None, client_setup=None, rate_limited=False):
     '''Returns dict(outcome, control peer, events).'''
     from wpull.network.pool import ConnectionPool
     from wpull.protocol.ftp.client import Client
@@ -31,7 +31,15 @@ def run_session(url, script, listing=False, login=None, client_setup=None):
         net = netsim.Net().install()
         try:
             control, data = ftpsim.install(net, script)
-            pool = ConnectionPool(resolver=netsim.StaticResolver({'f.test': '127.0.3.1'}))
+            if rate_limited:
+                # --limit-rate with a limit far above anything the simulation delivers: only the code path differs
+                import functools
+                from wpull.network.connection import Connection
+                from wpull.network.bandwidth import BandwidthLimiter
+                pool = ConnectionPool(resolver=netsim.StaticResolver({'f.test': '127.0.3.1'}),
+                                      connection_factory=functools.partial(Connection, bandwidth_limiter=BandwidthLimiter(10 ** 12)))
+            else:
+                pool = ConnectionPool(resolver=netsim.StaticResolver({'f.test': '127.0.3.1'}))
             client = Client(connection_pool=pool)
             teardown = client_setup(client) if client_setup else None
             result['control'] = control
@@ -164,7 +172,7 @@ def is_subsequence_prefix(verbs, expected):
 
 # ------------------------------------------------------------------------------------------ B: replies
 def gen_reply(rng):
-    code = rng.choice([200, 213, 220, 226, 227, 230, 331, 150, 550, 421])
+    code = rng.choice([200, 213, 220, 226, 227, 230, 331, 150, 550, 421, 0, 1, 99, 100, 599, 999])
     kind = rng.choice(['single', 'single', 'multi', 'multi-indented', 'multi-coded', 'lf-only', 'multi-digit-lines', 'multi-other-code'])
     words = ['ok', 'File status', 'Entering Passive Mode (127,0,3,9,156,65)', 'done.', 'transfer complete', 'é ü', '']
     # reply text is arbitrary bytes: sometimes the whole reply is sent in Latin-1 (not valid UTF-8), on any of its lines
@@ -177,14 +185,14 @@ def gen_reply(rng):
                          '\uff12\uff12\uff10 fullwidth']
     if kind == 'single':
         text = [rng.choice(words)]
-        wire = ('%d %s\r\n' % (code, text[0])).encode(enc)
+        wire = ('%03d %s\r\n' % (code, text[0])).encode(enc)
     elif kind == 'lf-only':
         text = [rng.choice(words)]
-        wire = ('%d %s\n' % (code, text[0])).encode(enc)
+        wire = ('%03d %s\n' % (code, text[0])).encode(enc)
     else:
         n = rng.randrange(1, 5)
         mids = []
-        lines = ['%d-%s' % (code, 'first line')]
+        lines = ['%03d-%s' % (code, 'first line')]
         text = ['first line']
         for i in range(n):
             w = rng.choice(['features:', 'MLSD', 'UTF8', 'welcome to sim', 'quota: 10 of 20'] + hi + hi)
@@ -192,7 +200,7 @@ def gen_reply(rng):
                 # un-prefixed continuation lines that merely begin with digits (byte counts, dates, user counts): only a
                 # line made of this reply's code and a space ends the reply (RFC 959 4.2)
                 w = rng.choice(['2048 bytes free', '2015-01-01 maintenance', '2260 of 10000 bytes were sent', '12 users online',
-                                '1234567', '99', '2048', '226', '2260', '%d' % code, '%d0 x' % code, '%d\tx' % code])
+                                '1234567', '99', '2048', '226', '2260', '%03d' % code, '%03d0 x' % code, '%03d\tx' % code])
             elif kind == 'multi-other-code':
                 other = rng.choice([c for c in (226, 150, 200, 421, 550) if c != code])
                 w = rng.choice(['%d bytes sent' % other, '%d-odd' % other, '%d ' % other])
@@ -200,13 +208,13 @@ def gen_reply(rng):
                 lines.append(' ' + w)
                 text.append(w)
             elif kind == 'multi-coded':
-                lines.append('%d-%s' % (code, w))
+                lines.append('%03d-%s' % (code, w))
                 text.append(w)
             else:
                 lines.append(w)
                 text.append(w)
         last = rng.choice(['end', 'done'] + hi)
-        lines.append('%d %s' % (code, last))
+        lines.append('%03d %s' % (code, last))
         text.append(last)
         wire = ('\r\n'.join(lines) + '\r\n').encode(enc)
     return {'code': code, 'kind': kind + ('/latin-1' if enc == 'latin-1' else ''), 'text_lines': text, 'wire': wire}
@@ -354,9 +362,11 @@ def check_completion(case, part):
         script.segment = lambda b: [b[i:i + 1] for i in range(len(b))]
     elif seg == 'halves':
         script.segment = lambda b: [b[:len(b) // 2], b[len(b) // 2:]]
-    res = run_session('ftp://f.test/dir/file.bin', script)
+    res = run_session('ftp://f.test/dir/file.bin', script, rate_limited=case.get('rate_limited', False))
     part.evaluations += 1
     part.count('transfer_endings_' + case['ending'])
+    if case.get('rate_limited'):
+        part.count('transfers_with_a_bandwidth_limiter')
     replay = case
     events = res['control'].events
     part.nontrivial_case('completion/{}/{}/{}/{}'.format(case['ending'], seg, len(case['data']),
@@ -417,7 +427,8 @@ def worker(job):
     for n in range(job['n_completion']):
         # (the reply after the data connection closed: only 226 confirms the transfer; other replies - also positive ones
         # such as 225 'no transfer in progress', 221 'goodbye', 200, 211 - do not)
-        case = {'ending': rng.choice(['eof_first', 'reply_first', 'missing_final', 'error_final', 'error_final', 'no_eof', 'partial_final']),
+        case = {'rate_limited': rng.random() < 0.3,
+                'ending': rng.choice(['eof_first', 'reply_first', 'missing_final', 'error_final', 'error_final', 'no_eof', 'partial_final']),
                 'error_reply': rng.choice(['451 aborted', '426 Connection closed; transfer aborted', '550 failed', '225 no transfer in progress',
                                            '221 Goodbye', '200 ok', '211 status', '125 starting', '150 again', '332 need account',
                                            '226', '2260 x']),
